@@ -24,6 +24,18 @@ print('ok', v); sys.exit(0)
 '''
 
 
+COLON_WITNESS = '''\
+import sys, warnings; warnings.simplefilter('ignore')
+import formulas
+try:
+    r = formulas.Parser().ast('=:A1')
+    print('=:A1 is accepted and read as', r[1][-1].get_expr)
+    print('REPRODUCED: the range operator without a first corner is not rejected'); sys.exit(1)
+except formulas.errors.FormulaError:
+    print('=:A1 is rejected'); sys.exit(0)
+'''
+
+
 def run(tier, seed):
     ck = Check('C18', tier, seed)
     import formulas.parser as FP, formulas.tokens as T, formulas.tokens.operand as TD, formulas.builder as FB
@@ -35,6 +47,7 @@ def run(tier, seed):
               'rejection classes decided syntactically on the token list by the harness (spec in harness/c18_soup.py: must_reject)')
     ck.out_of_scope('arbitrary printable strings (tokenisation of a symbolic string needs regex capture semantics)',
                     'token sequences longer than the tier bound', 'numeric VALUE of literals (float(s) semantics trusted)')
+    known_colon = ck.check_known_witness('C18-colon-without-first-corner', COLON_WITNESS)
     quick = tier == 'quick'
     tasks = [
         dict(name='numeric_literals_accepted', module='c18_sym', func='number_literals', timeout=600,
@@ -47,7 +60,7 @@ def run(tier, seed):
              bounds='all 10 token patterns of Parser.filters, unbounded length', engine='rx2smt (z3 regex)'),
     ]
     run_tasks(ck, tasks)
-    src = open(os.path.join(ROOT, 'harness', 'c18_soup.py')).read()
+    src = open(os.path.join(ROOT, 'harness', 'c18_soup.py')).read().replace('__KNOWN_COLON__', 'True' if known_colon else 'False')
     hs, batch = [], Batch()
     T_ = 170 if quick else 900
     try:
@@ -55,19 +68,19 @@ def run(tier, seed):
         def add(prefix, only):
             s = src.replace('__PREFIX__', repr(tuple(prefix))).replace('__VALID__', 'None')
             h = Harness(ck, 'c18_soup_' + ('_'.join(map(str, prefix)) or 'e'), s); hs.append(h)
-            batch.add(h, T_, only=only, bounds='token sequences %s + %d free tokens over the 22-word vocabulary (incl. tab and line break)' % (
+            batch.add(h, T_, only=only, bounds='token sequences %s + %d free tokens over the 23-word vocabulary (incl. tab, line break, a lower-case error literal)' % (
                 list(prefix), 1 if only == ['soup1_ok'] else 2))
         add((), ['soup1_ok', 'soup2_ok', 'valid_ok'])
-        for a in range(22):
+        for a in range(23):
             add((a,), ['soup2_ok'])
         if not quick:
-            for a in range(22):
-                for b in range(22):
+            for a in range(23):
+                for b in range(23):
                     add((a, b), ['soup2_ok'])
         for f in range(7):
             s = src.replace('__PREFIX__', '()').replace('__VALID__', 'None').replace('pre: 0 <= f < len(VALID)', 'pre: f == %d' % f)
             if quick:
-                s = s.replace('pre: not (k2 or k3)', 'pre: not (k2 or k3)\n    pre: sel(t0, t1, t2, t3, t4) in (0, 1, 4, 7, 13, 14, 15, 17, 18, 19, 20) or sel(k0, k1) == 0')
+                s = s.replace('pre: not (k2 or k3)', 'pre: not (k2 or k3)\n    pre: sel(t0, t1, t2, t3, t4) in (0, 1, 4, 6, 7, 13, 14, 15, 17, 18, 19, 20, 22) or sel(k0, k1) == 0')
             h = Harness(ck, 'c18_edit_f%d' % f, s); hs.append(h)
             batch.add(h, T_, only=['edit_ok'], bounds='every single-token deletion / insertion / replacement of valid formula #%d%s' % (f, ' (10-token subset)' if quick else ''))
         batch.run()
